@@ -17,7 +17,8 @@ RULE = ("histories over {S: endpoint sends next ID, X: next ID first seen as a R
         "F: sends the oldest not-yet-sent ID, Rn/Ro: resends newest/oldest sent ID, I: proxy injects}, each applied "
         "to a real ProxiedCircuit.prepare_message with a tracker window of 1..4 (exhaustive to a depth bound) or "
         "1..10000 (Hypothesis walks); after EVERY prefix every original ID 1..max+3 and every wire ID 1..max+3 is "
-        "translated both ways and compared with an unbounded-memory reference model.  Non-trivial = history with an "
+        "translated both ways and compared with an unbounded-memory reference model; plus the circuit-level verdicts of C05's "
+        "harness (pings, PacketAcks, re-sent copies, stability of every translation) and repeated circuit-opening requests.  Non-trivial = history with an "
         "injection followed by an endpoint send; distinct by (window, symbol sequence).")
 ASSUMPTIONS = [
     "reference model: I = all wire IDs ever injected; eff(o) = the o-th positive integer not in I; orig(w) = w - |{i in I: i<w}|",
